@@ -28,7 +28,7 @@ use crate::ops::{payload_json, RoaSpec, ASNS};
 use crate::rp::{self, Vrp};
 use crate::rrdpc;
 
-const ADMIN: &str = "c18-admin-token";
+pub const ADMIN: &str = "c18-admin-token";
 const CAS: [&str; 3] = ["ca0", "ca1", "ca2"];
 const ALL: (&str, &str, &str) = ("AS0-AS4294967295", "0.0.0.0/0", "::/0");
 
@@ -41,7 +41,7 @@ fn spec(t: usize, slot: u8) -> RoaSpec {
     RoaSpec { asn_i: (t + 1) as u8, pfx_i: slot, ml: slot % 3, comment: 0 }
 }
 
-fn admin(d: &Daemon, method: &str, path: &str, body: Option<&str>) -> Result<Reply, String> {
+pub fn admin(d: &Daemon, method: &str, path: &str, body: Option<&str>) -> Result<Reply, String> {
     let mut hs = vec![("Authorization".to_string(), format!("Bearer {ADMIN}"))];
     if body.is_some() {
         hs.push(("Content-Type".into(), "application/json".into()));
@@ -49,7 +49,7 @@ fn admin(d: &Daemon, method: &str, path: &str, body: Option<&str>) -> Result<Rep
     d.request(Transport::Tcp, method, path, &hs, body.map(|b| b.as_bytes()))
 }
 
-fn ok(r: Reply, what: &str) -> Result<Reply, String> {
+pub fn ok(r: Reply, what: &str) -> Result<Reply, String> {
     if r.status == 200 {
         Ok(r)
     } else {
@@ -58,7 +58,7 @@ fn ok(r: Reply, what: &str) -> Result<Reply, String> {
 }
 
 /// Creates a CA with repository and parent through the API.
-fn create_ca(d: &Daemon, ca: &str, parent: &str) -> Result<(), String> {
+pub fn create_ca(d: &Daemon, ca: &str, parent: &str) -> Result<(), String> {
     ok(admin(d, "POST", "/api/v1/cas", Some(&json!({"handle": ca}).to_string()))?, "create ca")?;
     let pr = ok(admin(d, "GET", &format!("/api/v1/cas/{ca}/id/publisher_request.json"), None)?, "publisher request")?;
     ok(admin(d, "POST", "/api/v1/pubd/publishers", Some(&pr.text()))?, "add publisher")?;
@@ -77,7 +77,7 @@ fn create_ca(d: &Daemon, ca: &str, parent: &str) -> Result<(), String> {
 
 /// (running, pending due within `horizon_ms`) task names read from the
 /// daemon's task queue on disk.
-fn queue_state(dir: &Path, horizon_ms: i128) -> (Vec<String>, Vec<String>) {
+pub fn queue_state(dir: &Path, horizon_ms: i128) -> (Vec<String>, Vec<String>) {
     let now = chrono::Utc::now().timestamp_millis() as i128;
     let list = |scope: &str| -> Vec<(i128, String)> {
         let mut out = Vec::new();
@@ -100,7 +100,7 @@ fn queue_state(dir: &Path, horizon_ms: i128) -> (Vec<String>, Vec<String>) {
 
 /// Waits until the scheduler has nothing to do (twice in a row, more than
 /// one idle period of the scheduler apart).
-fn wait_quiet(dir: &Path, limit: Duration) -> Result<(), String> {
+pub fn wait_quiet(dir: &Path, limit: Duration) -> Result<(), String> {
     let t0 = Instant::now();
     let mut quiet = 0;
     loop {
@@ -240,7 +240,7 @@ fn run_thread(d: &Daemon, t: usize, ops: &[TOp]) -> Done {
     done
 }
 
-fn history_labels(d: &Daemon, ca: &str) -> Result<Vec<String>, String> {
+pub fn history_labels(d: &Daemon, ca: &str) -> Result<Vec<String>, String> {
     let r = ok(admin(d, "GET", &format!("/api/v1/cas/{ca}/history/commands/10000"), None)?, "history")?;
     let j = r.json().ok_or("history is not JSON")?;
     let rows = j.get("commands").and_then(|c| c.as_array()).cloned().unwrap_or_default();
